@@ -12,7 +12,11 @@ for crate in lib srv; do
     ( cd harness/$crate && CARGO_TARGET_DIR=/verif/.cache/target RUSTFLAGS="--cfg throttlecrab_verif" cargo build --offline --release --bins )
     if [ "$crate" = lib ]; then
       ( cd harness/$crate && CARGO_TARGET_DIR=/verif/.cache/target RUSTFLAGS="--cfg throttlecrab_verif" cargo build --offline --bins )
+    else
+      ( cd harness/$crate && CARGO_TARGET_DIR=/verif/.cache/target RUSTFLAGS="--cfg throttlecrab_verif" cargo build --offline --bin actor )
     fi
   fi
 done
+# the real server binary (C09, C11, C12)
+( cd /repo && CARGO_TARGET_DIR=/verif/.cache/target-server RUSTFLAGS="--cfg throttlecrab_verif" cargo build --offline --release -p throttlecrab-server --bin throttlecrab-server )
 echo setup done
